@@ -72,7 +72,8 @@ Inductive nout :=
 | NFire (w : who) (tid : nat)        (* a task body ran (periodic call, timeout callback, continuation) *)
 | NOutside (i : nat)                 (* a datagram arrived at a transport of socket i *)
 | NSockSend (i : nat)                (* transport.sendto *)
-| NSockOpened (i : nat).
+| NSockOpened (i : nat)
+| NApi.                              (* a pending API coroutine acted directly, in its caller's task *)
 
 Definition tm_op (n : node) (w : who) (o : top) : node * list nout :=
   match get_tm n w with
@@ -134,8 +135,16 @@ Inductive nevent :=
      (* the loop runs an iteration, a task finishes, somebody calls the task-manager API *)
 | EFire (w : who) (tid : nat) (acts : list act)
      (* task tid of manager w runs a piece of its body (a period elapsed, a cache timed out) *)
-| EOutside (i : nat) (acts : list act).
+| EOutside (i : nat) (acts : list act)
      (* a datagram from the Internet arrives at a transport of exit socket i *)
+| EApiStep (routed : bool) (acts : list act).
+     (* a public coroutine of the overlay that the APPLICATION is awaiting (store_value, connect_peer, ...) resumes
+        in the caller's task - unload() cannot cancel it - and reaches its next sending step.  routed: that step is
+        a @task / registered task of the overlay's own manager (gen/G11_unload.v public_coroutines says which
+        public coroutines are built that way); otherwise it acts directly. *)
+
+Definition started_ok (os : list nout) : bool :=
+  match os with [NTask _ (OReg (RNew _))] => true | _ => false end.
 
 Definition is_mine (n : node) (l : lid) : bool :=
   (l =? n_me n) || match n_crypto n with Some c => l =? c | None => false end.
@@ -163,7 +172,14 @@ Definition nstep (c : cls) (n : node) (e : nevent) : node * list nout :=
       | Some s => if s_open s then let '(n', os) := perform c n acts in (n', NOutside i :: os) else (n, [])
       | None => (n, [])
       end
+  | EApiStep routed acts =>
+      if routed then
+        let '(n1, os) := tm_op n WOwn (RegisterAnon 9 KCoro) in
+        if started_ok os then let '(n2, o2) := perform c n1 acts in (n2, os ++ o2) else (n1, os)
+      else let '(n', os) := perform c n acts in (n', NApi :: os)
   end.
+
+Definition event_routed (e : nevent) : bool := match e with EApiStep r _ => r | _ => true end.
 
 (* one step of unload() *)
 Definition ustep_apply (c : cls) (n : node) (u : ustep) : node * list nout :=
@@ -196,6 +212,8 @@ Fixpoint irun (c : cls) (n : node) (l : list item) : node * list nout :=
   | [] => (n, [])
   | i :: r => let '(n1, o1) := istep c n i in let '(n2, o2) := irun c n1 r in (n2, o1 ++ o2)
   end.
+
+Definition item_routed (i : item) : bool := match i with IEvent e => event_routed e | IStep _ => true end.
 
 Definition steps_of (l : list item) : list ustep :=
   flat_map (fun i => match i with IStep u => [u] | IEvent _ => [] end) l.
